@@ -4,5 +4,6 @@ CONSTANTS
   WB = 7
   Mutant = "perterm"
   Wide = FALSE
+  Only = {"multiply"}
   LimbBits <- MCLimbBits
 INVARIANTS Sound DevOK Tight
